@@ -178,7 +178,7 @@ def gen_main(rng, sc, p_any):
         return s + ind + "}\n"
 
     out.append("message Ext { extensions 1000 to 9999; }\n")
-    for _ in range(rng.range(0, 3)):
+    for _ in range(rng.range(0, 2)):
         out.append(msg("", 0))
     for _ in range(rng.choice([0, 1, 1, 2])):
         out.append(enum(""))
@@ -235,6 +235,8 @@ def corpus():
         c("message N { option (o.msrc) = { keep: 1 }; }", inject=[[1, 777, "aa"]]),
         c("message N { option (o.mopt) = { keep: 1 }; }", inject=[[1, 777, "aa"]]),
         c("message N { option (o.mint) = 3; option (o.msrc) = { keep: 1 }; }", asis=False, drop_ext=[50003]),
+        # unknown fields on the descriptor message itself (lost by shallowCopy when the element is copied)
+        c("message N { option (o.msrc) = { keep: 1 }; optional int32 f = 1; }", inject=[[1, 777, "aa", "elem"], [2, 778, "bb", "elem"]]),
         # descriptor.proto's own source-retention field: extension declarations
         c('message D { extensions 4 to 1000 [declaration = { number: 4 full_name: ".foo" type: "int32" }, verification = DECLARATION]; '
           'optional int32 f = 1 [deprecated = true]; }'),
@@ -465,19 +467,20 @@ def run(ctx):
     rng = ctx.rng
     cases = corpus()
     g = golden_case()
-    cases.append(dict(g, golden=False, sci=True))
-    n_random = ctx.budget(260, 12000)
+    cases.append(dict(g, golden=False, sci=False))
+    n_random = ctx.budget(170, 12000)
     for i in range(n_random):
         sc = Schema(rng, rng.choice([0, 15, 30, 60]))
         p_any = rng.choice([30, 60, 90])
         c = {"files": {"opts.proto": sc.text(), "main.proto": gen_main(rng, sc, p_any)}, "main": "main.proto",
              "sci": rng.chance(1, 3), "asis": rng.chance(3, 4)}
         if rng.chance(1, 12):
-            c["inject"] = [[rng.range(0, 12), 700 + rng.range(0, 3), "aa" * rng.range(1, 3)] for _ in range(rng.range(1, 3))]
+            c["inject"] = [[rng.range(0, 12), 700 + rng.range(0, 3), "aa" * rng.range(1, 3)] + (["elem"] if rng.chance(1, 3) else [])
+                           for _ in range(rng.range(1, 3))]
         if not c["asis"] and rng.chance(1, 6):
             c["drop_ext"] = [rng.choice([50001, 50002, 50005])]
         cases.append(c)
-    ctx.rule = ("corpus of 13 hand-written files (smallest witnesses, all-removed, nothing-to-remove, injected unknown fields, extension "
+    ctx.rule = ("corpus of 14 hand-written files (smallest witnesses, all-removed, nothing-to-remove, injected unknown fields, extension "
                 "declarations) + protobuf-go's protoc-gen-go retention test file (compared with the descriptor protoc embedded) + random: "
                 "a generated option schema (three message levels, six extensions per options kind, retention of every field drawn from "
                 "none/UNKNOWN/RUNTIME/SOURCE) and a generated file using the options on every element kind with message literals up to "
